@@ -112,7 +112,8 @@ class Ctx:
         d = self.path("spec")
         meta = tempfile.mkdtemp(prefix="md-", dir=self.scratch)
         # SerialGC: in this sandbox ParallelGC costs 5-15 s of system time per JVM (measured)
-        cmd = ["java", gc, "-Xmx" + heap, "-Xss256m"]
+        # file.encoding: Java 17 in the C locale would read/write ndjson and modules as ASCII
+        cmd = ["java", gc, "-Dfile.encoding=UTF-8", "-Xmx" + heap, "-Xss256m"]
         if dfs:
             cmd.append("-Dtlc2.tool.queue.IStateQueue=StateDeque")
         cmd += ["-cp", TLA_CP, "tlc2.TLC", "-metadir", meta, "-fpmem", fpmem,
@@ -245,7 +246,7 @@ class Ctx:
 
     # ---------------------------------------------------------------- judge
     def judge(self, module, cfg, obsfile, nrecords=None, env=None, timeout=900, heap="8g",
-              chunk=None, label=None):
+              chunk=None, label=None, parallel=6):
         """run a Judge_* spec over obsfile. The spec reads IOEnv.OBS_FILE, writes one line per
         non-ok record to IOEnv.VERDICT_FILE and the number of judged / nontrivial records to
         IOEnv.STATS_FILE; acceptance (whole file consumed) is the spec's POSTCONDITION.
@@ -273,7 +274,9 @@ class Ctx:
         else:
             files = [(obsfile, n)]
         allv = []
-        for p, cnt in files:
+
+        def one(pc):
+            p, cnt = pc
             vf = p + ".verdicts"
             sf = p + ".stats"
             for x in (vf, sf):
@@ -293,15 +296,24 @@ class Ctx:
             st = st[-1]
             if int(st.get("judged", -1)) != cnt:
                 raise Broken("judge %s consumed %s of %d records" % (module, st.get("judged"), cnt))
+            vs = self.read_ndjson(vf)
+            for v in vs:
+                v["_obsfile"] = p
+            return cnt, st, vs
+
+        if len(files) > 1:
+            from concurrent.futures import ThreadPoolExecutor
+            with ThreadPoolExecutor(max_workers=min(parallel, len(files))) as ex:
+                results = list(ex.map(one, files))
+        else:
+            results = [one(files[0])]
+        for cnt, st, vs in results:
             self.judged += cnt
             self.nontrivial += int(st.get("nontrivial", 0))
             for k, v in st.items():
                 if k not in ("judged", "nontrivial") and isinstance(v, int):
                     key = (label + "." if label else "") + k
                     self.coverage_extra[key] = self.coverage_extra.get(key, 0) + v
-            vs = self.read_ndjson(vf)
-            for v in vs:
-                v["_obsfile"] = p
             allv.extend(vs)
         self.verdicts.extend(allv)
         return allv
